@@ -257,7 +257,7 @@ def check(P, rep):
             rep.floor('%s expiry-valid edges' % en, len(valid), 1)
             nflow = 0
             for gd in guard_edges(g):
-                if gd.cond[0] == 'cmp' and core(gd.cond[2]) == amount and any(is_stored_allow(x) for x in alts(gd.cond[3])) and gd.truth != 0:
+                if gd.cond[0] == 'cmp' and core(gd.cond[2]) == amount and any(is_stored_allow(x) for x in alts(gd.cond[3])) and gd.cond[1] == 'le':
                     # follow the tested value back through the comparison (wherever it was computed: in this block, in the caller of a
                     # `require(cond)` helper, through a local) to the stored allowance it compares
                     t = gd.ctx.body['blocks'][gd.bb]['term']
